@@ -25,6 +25,8 @@ RULE = ('Hypothesis-generated histories of add_processor(new or previously remov
         'canonical JSON.')
 ASSUMPTIONS = [
     'dispatching stays enabled (the quantifier has no toggles)',
+    'an add_processor whose on_add raises leaves an unspecified but self-consistent world: processors is adopted '
+    'as the model (one per exact type, sorted), later steps are judged as usual',
     'which of several matching subclass processors remove_processor(T) detaches is not fixed (any match unless '
     'an exact-type processor exists)',
     'the priority of an instance is not changed by the harness while it is registered',
@@ -34,6 +36,10 @@ FINDINGS = {}
 PRIOS = [None, -3, -2, -1, 0, 1, 2, 3]
 DEFAULTS = [None, None, 0, 1, -1, 2, 5]
 P_ADD, P_REMOVE = 1, 2
+
+
+class AddFailed(Exception):
+    pass
 
 
 class ProcRec(EqByMode, desper.Processor):
@@ -48,6 +54,8 @@ class ProcRec(EqByMode, desper.Processor):
 
     def on_add(self, *a):
         self._log.append(('on_add', self, a))
+        if self.__dict__.pop('_fail_add', False):
+            raise AddFailed(repr(self))     # user code failing in the processor's on_add
 
     def on_remove(self, *a):
         self._log.append(('on_remove', self, a))
@@ -74,7 +82,9 @@ def decode_class(p):
 def decode_op(t):
     sel, p = t
     d = [(p >> (4 * i)) & 15 for i in range(4)]
-    kind = ('add', 'add', 'add', 'add', 'remove', 'process', 'process', 'readd', 'arm', 'process')[sel % 10]
+    kind = ('add', 'add', 'add', 'add', 'remove', 'process', 'process', 'readd', 'arm', 'process', 'failadd')[sel % 11]
+    if kind == 'failadd':
+        return ['failadd', d[0] % 6, PRIOS[d[1] % len(PRIOS)]]
     if kind == 'arm':
         return ['arm', d[0], d[1] % 2, d[2] % 6, PRIOS[d[3] % len(PRIOS)]]
     if kind == 'add':
@@ -88,7 +98,7 @@ def decode_op(t):
 
 def strategy():
     cls = st.integers(0, 7 * len(DEFAULTS) * 4 * 36 - 1).map(decode_class)
-    op = st.tuples(st.integers(0, 9), st.integers(0, 16 ** 4 - 1)).map(decode_op)
+    op = st.tuples(st.integers(0, 10), st.integers(0, 16 ** 4 - 1)).map(decode_op)
     return st.fixed_dictionaries({'classes': st.lists(cls, min_size=3, max_size=6),
                                   'ops': worldops.chunked(op, 40)})
 
@@ -197,6 +207,37 @@ def run_case(case):
             owed.append(('on_add', id(p)))
         check_callbacks([r for r in log[mark:] if r[0] != 'process'], owed)
 
+    def do_failing_add(p, prio):
+        """add_processor whose on_add raises (user code failing).  What such a call leaves behind is not specified;
+        whatever it is, the world's own books must agree with each other from then on: processors is adopted as
+        the new model (at most one processor per exact type, sorted by priority) and every later step is judged
+        against it as usual."""
+        p.__dict__['_fail_add'] = True
+        mark = len(log)
+        try:
+            world.add_processor(p, prio)
+        except AddFailed:
+            pass
+        except Exception as exc:
+            viol('add_processor_raised', exception=repr(exc))
+        else:
+            viol('exception_of_on_add_swallowed_by_add_processor', processor=repr(p))
+        del log[mark:]
+        try:
+            procs = list(world.processors)
+        except Exception as exc:
+            viol('processors_raised', exception=repr(exc))
+        types = [type(x) for x in procs]
+        if len(set(types)) != len(types):
+            viol('two_processors_of_one_exact_type', processors=[repr(x) for x in procs])
+        if any(a.priority > b.priority for a, b in zip(procs, procs[1:])):
+            viol('processors_not_in_priority_then_insertion_order', got=[repr(x) for x in procs], after='failed add')
+        for o in model:
+            if not any(o is x for x in procs):
+                removed_pool.append(o)
+        model[:] = procs
+        flags['add_whose_on_add_raised'] += 1
+
     def check_callbacks(seg, owed):
         got = sorted((k, id(r)) for (k, r, a) in seg)
         if got != sorted(owed):
@@ -233,6 +274,12 @@ def run_case(case):
         if op[0] == 'add':
             do_add(new(op[1]), op[2])
             flags['add'] += 1
+        elif op[0] == 'failadd':
+            p_ = new(op[1])
+            if maps(p_, 'on_add'):
+                do_failing_add(p_, op[2])
+            else:
+                do_add(p_, op[2])
         elif op[0] == 'readd':
             if not removed_pool:
                 do_add(new(op[1]), op[2])
